@@ -181,6 +181,23 @@ def check(case, rec):
                     fresh = cube_for(dims_c).calculate([make_func(kind, funcs[i], farg, warg, NN)])[0]
                     back = cube_a.calculate([L[i]])[0]
                     other_rows.append((i, used, fresh, back))
+    # results depend on the arguments' CURRENT content: edit the fact array in place and compute again
+    edited = None
+    if isinstance(farg, numpy.ndarray) and farg.dtype.kind == "f" and farg.size >= 2 and not shared:
+        flat = farg.reshape(-1)
+        nanpos = numpy.flatnonzero(numpy.isnan(flat))
+        okpos = numpy.flatnonzero(~numpy.isnan(flat))
+        if len(okpos):
+            flat[okpos[0]] = numpy.nan          # a value is voided ...
+        if len(nanpos):
+            flat[nanpos[-1]] = 2.5              # ... and a missing one is filled in
+        with warnings.catch_warnings():
+            warnings.simplefilter("ignore")
+            with libcall(what + " after an in-place edit of the fact array"):
+                after_edit = [cube_for(dims_a).calculate([make_func(kind, f, farg, warg, NN)])[0] for f in funcs]
+                clone = farg.copy()
+                on_clone = [cube_for(dims_a).calculate([make_func(kind, f, clone, warg, NN)])[0] for f in funcs]
+        edited = (after_edit, on_clone)
     for j, i in enumerate(perm):
         if not same(together[j], alone[i]):
             raise Violation("%s: %s computed together with %s (position %d) differs from computing it alone"
@@ -196,6 +213,12 @@ def check(case, rec):
         if not same(once_more[i], alone[i]):
             raise Violation("%s: %s re-used alone after a joint run gives a different result"
                             % (what, funcs[i]["agg"]), sig="%s reuse alone differs (%s)" % (kind, funcs[i]["agg"]))
+    if edited is not None:
+        for i, (x, y) in enumerate(zip(*edited)):
+            if not same(x, y):
+                raise Violation("%s: after an in-place edit of the fact array, %s computed on the edited array differs "
+                                "from the same aggregate on an equal copy of it (something remembered the old content)"
+                                % (what, funcs[i]["agg"]), sig="%s result depends on an earlier content of an argument" % kind)
     for i, used, fresh, back in other_rows:
         if not same(used, fresh):
             raise Violation("%s: a count object used on one cube and then on a cube with a different number of rows "
@@ -205,6 +228,8 @@ def check(case, rec):
                             "different result" % what, sig="%s count object remembers another cube" % kind)
     after = {k: snapshot(v) for k, v in args.items()}
     for k in args:
+        if k == "fact" and edited is not None:
+            continue  # edited on purpose by the check itself
         if before[k] != after[k]:
             raise Violation("%s modified its argument %r (aggregates %s)" % (
                 what, k, [f["agg"] for f in funcs]), sig="%s modified argument %s" % (kind, k.split("_")[0]))
